@@ -144,10 +144,8 @@ func makeAccumulatorFunc(expr parser.ItemType) (newAccumulatorFunc, error) {
 
 			return &accumulator{
 				AddFunc: func(v float64) {
-					if !hasValue {
+					if !hasValue || value < v || math.IsNaN(value) {
 						value = v
-					} else {
-						value = math.Max(value, v)
 					}
 					hasValue = true
 				},
@@ -166,10 +164,8 @@ func makeAccumulatorFunc(expr parser.ItemType) (newAccumulatorFunc, error) {
 
 			return &accumulator{
 				AddFunc: func(v float64) {
-					if !hasValue {
+					if !hasValue || value > v || math.IsNaN(value) {
 						value = v
-					} else {
-						value = math.Min(value, v)
 					}
 					hasValue = true
 				},
